@@ -76,20 +76,20 @@ var vocab = []string{"alpha", "bravo", "cache", "delta", "echo", "flush", "gamma
 
 func c10Profile(plan chainPlan) shape.Profile {
 	p := shape.FullProfile()
-	lt := append([]string{}, shape.AllLeafTypes...)
+	var lt []string // SampledFrom favours the front of the list: the types the manglers act on come first
 	for _, w := range []struct {
 		ty string
 		n  int
 	}{
-		{"[]Job", 4}, {"TagSet", 2}, {"map[string]struct{}", 5}, {"time.Duration", 5}, {"[]time.Duration", 2},
-		{"map[string]time.Duration", 2}, {"[2]time.Duration", 1}, {"*time.Duration", 1},
-		{"time.Time", 3}, {"net.IP", 3}, {"Stamp", 2}, {"Color", 2},
-		{"int", 2}, {"string", 2}, {"bool", 2}, {"[]string", 2}, {"float64", 1}, {"map[string]string", 1},
+		{"map[string]struct{}", 3}, {"time.Duration", 3}, {"net.IP", 2}, {"[]Job", 2}, {"time.Time", 2}, {"int", 2}, {"TagSet", 1},
+		{"string", 2}, {"[]time.Duration", 1}, {"map[string]time.Duration", 1}, {"[]string", 1}, {"Stamp", 1}, {"Color", 1}, {"bool", 1},
+		{"[2]time.Duration", 1}, {"*time.Duration", 1}, {"float64", 1}, {"map[string]string", 1},
 	} {
 		for i := 0; i < w.n; i++ {
 			lt = append(lt, w.ty)
 		}
 	}
+	lt = append(lt, shape.AllLeafTypes...)
 	if !known(keyTypesubAddr) {
 		lt = append(lt, "*[]time.Duration", "**time.Duration", "*map[string]time.Duration")
 	}
